@@ -67,6 +67,7 @@ def fx_to_abs(graph: fx.Graph, ids: Optional[Dict[str, int]] = None, with_metric
         if with_metrics:
             m = n.meta.get("metrics")
             rec["float"] = bool(n.meta.get("outputs_float_tensor", False))
+            rec["req"] = bool(n.meta.get("requires_grad", False))
             rec["fwd"] = rat(m.fwd.mean_abs) if m is not None else [0, 1]
             rec["bwd"] = rat(m.bwd.mean_abs) if (m is not None and m.bwd is not None) else [-1, 1]
         out.append(rec)
